@@ -21,6 +21,7 @@ var layouts = []string{
 	"02/Jan/2006:15:04:05 -0700",
 	"Jan _2 15:04:05",
 	"Jan  2 15:04:05",
+	"Jan _2 15:04:05 -0700", // yearless with its own zone offset
 	time.ANSIC,
 	"2006/01/02 15:04:05",
 	"20060102", // digits only: the capture group is typed by its pattern
@@ -35,6 +36,7 @@ var values = []string{
 	"04/Mar/2020:05:06:07 +0100",
 	"Mar  4 05:06:07",
 	"Mar 14 05:06:07",
+	"Mar  5 10:00:00 +0530",
 	"Wed Mar  4 05:06:07 2020",
 	"2020/03/04 05:06:07",
 	"20200304",
@@ -316,5 +318,5 @@ func main() {
 	c.Set("zones", len(zones))
 	c.Set("program", src)
 	c.Assume = []string{"processing time is bracketed by clock readings around the call, never compared with a deadline", "the year used for yearless layouts is read from the clock by both the VM and the reference; a run across New Year's midnight could disagree"}
-	c.Finish("one program with a strptime site per layout (9 layouts), a settime site per n (7 values) and a site without either; all sequences of <=2 (thorough 3) lines over {layout×value (12 values, valid/invalid/ambiguous), settime sites, plain line} × zones {unset, UTC, +05:30, America/New_York} × syslog-current-year on/off; oracle time.Parse/ParseInLocation; plus a 140-line run crossing the memo size. distinct_nontrivial = distinct (zone, option, line sequence)")
+	c.Finish("one program with a strptime site per layout (10 layouts), a settime site per n (7 values) and a site without either; all sequences of <=2 (thorough 3) lines over {layout×value (13 values, valid/invalid/ambiguous), settime sites, plain line} × zones {unset, UTC, +05:30, America/New_York} × syslog-current-year on/off; oracle time.Parse/ParseInLocation; plus a 140-line run crossing the memo size. distinct_nontrivial = distinct (zone, option, line sequence)")
 }
